@@ -23,10 +23,17 @@ CVS_TMP = ['cvs-src-up.log', 'cvs-src-ci.log', 'cvs-xenocara-up.log', 'cvs-xenoc
            'cvs-ports-ci.log', 'packages.diff']
 EXITS = [1, 1, 1, 2, 124, 255, -1, -1, 127, 2147483648, -2147483649]
 DURS = [0, 1, 2, 9, 10, 59, 60, 61, 99, 100, 599, 3599, 3600, 3601, 3661, 35999, 36000, 86399, 86400, 359999, 360000,
-        2 ** 31 - 1, 2 ** 31, 2 ** 40 - 1, 2 ** 40]
-DELTAS = [0, 0, 0, 1, -1, 59, -59, 60, -60, 61, -61, 3600, -3600, 2 ** 40, -(2 ** 40), 7, -7]
+        2 ** 31 - 1, 2 ** 31, 2 ** 32 - 1, 2 ** 32, 2 ** 40 - 1, 2 ** 40]
+DELTAS = [0, 0, 0, 1, -1, 59, -59, 60, -60, 61, -61, 3600, -3600, 2 ** 40, -(2 ** 40), 7, -7, 2 ** 31, -(2 ** 31), 2 ** 32 + 61, -(2 ** 32 + 60)]
 MIB, KIB = 2 ** 20, 2 ** 10
 TYPE_LETTER = {'dir': 'D', 'file': 'R'}
+# Findings reported but not yet listed in known_findings.json are PARKED so that the checks exit 0 on the unchanged tree:
+#   signature shell-total-evaluates-step-fields (C18; findings/C18_step_eval_evaluates_fields.md): util.sh step_eval evals a row unquoted.
+# False: cases with blank / shell-syntax step names do not run the shell total (fam_shell_names sets shell False), and load_corpus skips
+# corpus files carrying a "pending" key (corpus/C18/b18_shell_names.json).  VERIF_PENDING=1 switches the parked class on for a run;
+# once main has added the signature to known_findings.json set this to True.
+PENDING_FINDINGS = os.environ.get('VERIF_PENDING', '1') == '1'     # armed: the signatures are listed in known_findings.json
+BOUNDARY_P = 0.05      # share of gen_case's cases that come from the boundary size / shape classes (boundary_case)
 
 
 # ---------------------------------------------------------------- generator
@@ -122,7 +129,7 @@ def gen_rows(rng, mode):
     n = rng.choice([0, 1, 1, 2, 3, 3, 4, 5, 6, 8, len(pool), len(pool)])
     if rng.random() < 0.04:
         # a long schedule: more rows than any fixed mode has (canvas configurations, many regress suites)
-        pool = pool[:-1] + ['extra%d' % i for i in range(rng.choice([20, 40, 70]))] + ['end']
+        pool = pool[:-1] + ['extra%d' % i for i in range(rng.choice([15, 16, 17, 20, 31, 32, 33, 40, 63, 64, 65, 70]))] + ['end']
         n = len(pool)
     if mode == 'canvas':
         names = pool[:max(0, n - 1)] + (['end'] if n and rng.random() < 0.6 else pool[n - 1:n] if n else [])
@@ -190,10 +197,10 @@ def gen_sizes(rng):
     for nm in pick:
         thr = KIB if nm == 'bsd.rd' else MIB
         base = rng.choice([0, 1, 512, 1023, 1024, 1025, 10 * KIB, MIB - 1, MIB, MIB + 1, 5 * MIB, 2 ** 18 * rng.choice([1, 3, 5, 7, 9, 4097]),
-                           2 ** 8 * rng.choice([1, 3, 5, 4099]), 102 * KIB + 51, 3 * 2 ** 30, 5 * 2 ** 30 + 2 ** 29,
+                           2 ** 8 * rng.choice([1, 3, 5, 4099]), 102 * KIB + 51, 3 * 2 ** 30, 5 * 2 ** 30 + 2 ** 29, 2 ** 31 - 1, 2 ** 31, 2 ** 32 - 1, 2 ** 32,
                            rng.randrange(0, 4 * MIB), rng.randrange(0, 64 * KIB)])
         d = rng.choice([0, 1, thr - 1, thr, thr + 1, 2 * thr, thr // 2, 2 ** 18 * rng.choice([1, 3, 5, 7, 4097]), rng.randrange(0, 3 * thr),
-                        3 * 2 ** 30])
+                        3 * 2 ** 30, 2 ** 31, 2 ** 32, 2 ** 32 + thr - 1])
         if rng.random() < 0.5:
             a, b = base + d, base
         else:
@@ -207,6 +214,8 @@ def gen_sizes(rng):
 
 
 def gen_case(rng, mode=None, focus=None):
+    if mode is None and focus is None and rng.random() < BOUNDARY_P:
+        return boundary_case(rng)
     if focus == 'sizes':
         mode = 'robsd'
     mode = mode or rng.choice(MODES)
@@ -306,6 +315,629 @@ def created_order(case):
     return sorted([o[0] for o in case['others']], key=natural_key) + [case['builddir']]
 
 
+# ---------------------------------------------------------------- boundary SIZE / SHAPE classes
+
+# The classes a fixed buffer, a narrowed integer, a power-of-two growth step or an off-by-one in report.c / step.c /
+# invocation.c / util.sh trips over.  Every class is reachable three ways: gen_case takes one with a small probability,
+# c05.py / c18.py load one deterministic case per class from corpus/C<NN>/b<NN>_*.json (written by boundary_corpus below,
+# kept small through the run-length content form and repeated rows), and the name of the class is counted into the input
+# distribution ("class: ...", rp_common.evaluate).
+#
+# Caps (measured on the extracted model, see the report of the agent that added the classes):
+#   * step NAMES: the step-file reader of the model is worse than quadratic in the length of a field (4096: 0.5 s,
+#     8193: 3 s, 16384: 20 s, 32768: 125 s for model + oracle) - names stop at 8193; 65535/65536 are not run
+#   * regress logs: the scratch append of RegressLog.RLDefs is quadratic in the size of one test block (64 KiB: 4.6 s,
+#     256 KiB: 126 s) - a block stops at 16 KiB; lines of 64 KiB and logs of 64 KiB outside a block are fine
+#   * the oracle is quadratic in the number of sections (256: 1.2 s, 1024: 27 s) - counts stop at 256
+#   * LOG NAMES: a component is at most NAME_MAX 255 bytes, <builddir>/<log> must stay below PATH_MAX 4096 (the
+#     environment assumed by the model): log names stop at 3900 bytes
+#   * file SIZES: ext4 refuses a sparse file of 2^44 bytes and above - sizes stop at 2^43 (2^53+1, 2^63-1 not reachable)
+#   * a delta of -2^63 is not generated: format_duration_and_delta negates it (undefined in C, stays negative in practice and
+#     the suffix is dropped) while the model computes with unbounded integers; -(2^63-1) is the smallest delta
+LENS = [0, 1, 254, 255, 256, 1023, 1024, 1025, 4095, 4096, 4097, 8191, 8192, 8193, 65535, 65536]
+COUNTS = [0, 1, 15, 16, 17, 31, 32, 33, 63, 64, 65, 255, 256]
+NAME_LENS = [1, 254, 255, 256, 1023, 1024, 1025, 4095, 4096, 4097, 8191, 8192, 8193]
+LOGNAME_LENS = [1, 254, 255, 256, 1023, 1024, 1025, 2047, 2048, 3900]
+BLOCKS = [4095, 4096, 4097, 8191, 8192, 8193, 65535, 65536]
+I31, I32, I63 = 2 ** 31, 2 ** 32, 2 ** 63
+BDURS = [0, 1, 59, 60, 61, 3599, 3600, 3601, 86399, 86400, I31 - 1, I31, I32 - 1, I32, I63 - 1, -1]
+BDURS_END = BDURS + [-2, -I31, -I32, -(I63 - 1), -I63]      # the end row's duration enters no sum
+BDELTAS = [1, 59, 60, 61, 3599, 3600, I31 - 1, I31, I31 + 1, I32 - 1, I32, I32 + 60, I32 + 61, I63 - 1]
+SEQ_WORK = {'robsd': ['kernel', 'base', 'release', 'xbase', 'image'], 'robsd-cross': ['dirs', 'tools', 'distrib'],
+            'robsd-ports': ['clean', 'proot', 'patch', 'distrib']}
+# names one comparison away from the names report.c / step.c / util.sh look for: prefixes, extensions, other case, the
+# separators of the formats that carry a name (step.csv, the log name, the regress-<name>-quiet variable, the Subject line)
+NEAR_NAMES = ['cvs-x', 'cvsx', 'cv', 'c', 'CVS', 'Cvs', 'cvs.', 'dpb-x', 'dp', 'DPB', 'dpb.', 'checkflist2', 'checkflis', 'Checkflist', 'End', 'END',
+              'endx', 'en', 'end.', 'a/b', 'a-b', 'a.b', 'a=b', '-', '.', '/', '=', 'bin/ksh/', 'bin/ks', 'BIN/KSH', 'bin/ksh-extr', 'bin/ksh-extra2',
+              'bin-ksh', 'bin.ksh']
+# names with a blank or with shell syntax: robsd-report takes them as they are; util.sh step_eval hands the row to eval unquoted
+# (findings/C18_step_eval_evaluates_fields.md: "end " counts as the end step, "x;_tot=7" sets the total)
+SHELL_NAMES = ['cvs ', ' cvs', 'end ', ' end', 'a b', ' ', 'end;true', 'a;b', 'x;_tot=777', 'a&b', 'a|b', 'x$y', '$(id)', 'a*', 'a#b', "it's", 'a\\b', '~']
+SHELL_ACTIVE = re.compile(r'[^A-Za-z0-9_./+:@%,=-]')
+
+
+def plain_case(mode, rows, logs, **kw):
+    c = {'mode': mode, 'rows': rows, 'logs': logs, 'tmp': {n: None for n in CVS_TMP}, 'comment': None, 'tags': None,
+         'target': b'arm64\n'.hex(), 'regress': [[s, False] for s in SUITES], 'running': True, 'step_present': True,
+         'builddir': '2024-01-05.1', 'others': [], 'created': ['2024-01-05.1'], 'rel': None, 'prevrel': {}, 'classes': []}
+    c.update(kw)
+    return c
+
+
+def brow(i, name, ex=0, dur=5, delta=0, log=None, skip=0, t=None):
+    return {'step': i, 'name': name, 'exit': ex, 'duration': dur, 'delta': delta, 'log': '%03d.log' % i if log is None else log,
+            'user': 'root', 'time': 1700000000 + 7 * i if t is None else t, 'skip': skip}
+
+
+def expand_case(case):
+    """rows with "repeat": n stand for n rows (%d in name and log is the step number, time advances by one per row); a key of
+    logs with %d is the log of every row made from a pattern with that log; the rows are numbered by position.  Idempotent."""
+    if not any('repeat' in r for r in case['rows']) and not any('%d' in k for k in case['logs']):
+        return case
+    case = dict(case, logs=dict(case['logs']))
+    rows = []
+    for r in case['rows']:
+        for k in range(r.get('repeat', 1)):
+            i = len(rows) + 1
+            q = {f: v for f, v in r.items() if f != 'repeat'}
+            q['step'] = i
+            if 'repeat' in r:
+                q.update(name=r['name'].replace('%d', str(i)), log=r['log'].replace('%d', str(i)), time=r['time'] + k)
+                if '%d' in r['log'] and r['log'] in case['logs']:
+                    case['logs'][q['log']] = case['logs'][r['log']]
+            rows.append(q)
+    for k in [k for k in case['logs'] if '%d' in k]:
+        del case['logs'][k]
+    case['rows'] = rows
+    return case
+
+
+def sections_case(mode, items, classes, **kw):
+    """one row with a section per item (name suffix, exit, log content, log name or None): every mode prints a section for a
+    non-skipped row with a non-zero exit; in the sequential modes the rows before the last one fail too (files no
+    orchestrator writes - the excerpt code does not look at the position)"""
+    rows, logs, suites = [], {}, []
+    for k, (label, ex, content, logname) in enumerate(items):
+        i = k + 1
+        if mode == 'robsd-regress':
+            nm = 'suite/%d' % i
+            suites.append([nm, False])
+        elif mode == 'canvas':
+            nm = 'step %d' % i
+        else:
+            w = SEQ_WORK[mode]
+            nm = w[k % len(w)]
+        r = brow(i, nm, ex=ex, log=logname)
+        rows.append(r)
+        logs[r['log']] = content
+    c = plain_case(mode, rows, logs, **kw)
+    if mode == 'robsd-regress':
+        c['regress'] = suites
+    c['classes'] = list(classes)
+    return c
+
+
+def filler(n, width=64):
+    """parts: exactly n bytes of lines of <width> bytes (the last one shorter), ending in a newline when n > 0"""
+    if n <= 0:
+        return []
+    line = (b'0123456789abcdef' * (width // 16 + 1))[:width - 1] + b'\n'
+    q, r = divmod(n, len(line))
+    parts = [(line, q)]
+    if r:
+        parts.append(b'f' * (r - 1) + b'\n')
+    return parts
+
+
+def ten(pre=b'last', n=10):
+    return b''.join(pre + b' %d\n' % i for i in range(1, n + 1))
+
+
+# ---- log content: (class name, content) per parameter
+
+def log_line_length(L, pos):
+    """a line of L bytes (newline not counted) as the last line / as the tenth-from-last / as the eleventh-from-last (just outside
+    the excerpt) / as an unterminated last line"""
+    long = (b'x', L)
+    if pos == 'last':
+        parts = [ten(b'head', 11), long, b'\n']
+    elif pos == 'tenth':
+        parts = [ten(b'head', 3), long, b'\n', ten(b'tail', 9)]
+    elif pos == 'eleventh':
+        parts = [ten(b'head', 3), long, b'\n', ten(b'tail', 10)]
+    else:
+        parts = [ten(b'head', 11), long]
+    return 'log line length=%d %s' % (L, pos), enc(*parts)
+
+
+def log_lines(N, shape):
+    one = {'plain': b'line\n', 'crlf': b'line\r\n', 'blanks': b'line\n\n\n', 'nonl': b'line\n'}[shape]
+    parts = [(one, N)]
+    if shape == 'nonl':
+        parts = [(one, max(0, N - 1))] + ([b'line'] if N else [])
+    return 'log lines=%d %s' % (N, shape), enc(*parts)
+
+
+def log_size(S, nl):
+    parts = filler(S) if nl else filler(S - 3) + [b'zzz']
+    return 'log size=%d %s' % (S, 'newline at the end' if nl else 'no newline at the end'), enc(*parts)
+
+
+def log_excerpt_offset(B, n):
+    """the n-th line from the end starts exactly at offset B (n = 10: the excerpt starts at the block boundary)"""
+    return 'log %s-from-last line at offset %d' % ({10: 'tenth', 11: 'eleventh', 1: 'first'}[n], B), enc(*(filler(B) + [ten(b'tail', n)]))
+
+
+def log_excerpt_size(E):
+    """the ten lines of the excerpt are E bytes together (a window of the file end of fixed size cuts the first of them)"""
+    q, r = divmod(E, 10)
+    lines = [q + (1 if k < r else 0) for k in range(10)]
+    parts = [ten(b'head', 3)]
+    for k, n in enumerate(lines):
+        parts += [(b'%d' % (k % 10), max(0, n - 1)), b'\n']
+    return 'log excerpt bytes=%d' % E, enc(*parts)
+
+
+def log_blank(K, only):
+    parts = [(b'\n', K)] if only else [ten(b'line', 12), (b'\n', K)]
+    return 'log %s=%d' % ('only newlines' if only else 'trailing newlines', K), enc(*parts)
+
+
+def log_escapes(K, byte):
+    """K bytes that report_sanitize replaces by longer text inside the excerpt (the copy grows by 2x / 4x)"""
+    return 'log %s bytes=%d' % ('NUL' if byte == 0 else 'CR', K), enc(ten(b'head', 3), b'a', (bytes([byte]), K), b'b\n', ten(b'tail', 4))
+
+
+def log_nul_at(B):
+    return 'log NUL at offset %d inside the excerpt' % B, enc(*(filler(B - 40) + [ten(b'tail', 3), (b'y', 40 - len(ten(b'tail', 3))), b'\x00after the NUL\n', ten(b'end', 5)]))
+
+
+def log_trace(T, tail):
+    """T bytes of ksh trace lines, then nothing / a plain line / an unterminated plain line / one more trace line"""
+    unit = b'+ ' + b't' * 29 + b'\n'
+    q, r = divmod(T, len(unit))
+    if r == 0:
+        body = [(unit, q)]
+    elif r == 1:
+        body = [(unit, q - 1), b'+ ' + b't' * 30 + b'\n']
+    else:
+        body = [(unit, q), b'+' + b'u' * (r - 2) + b'\n']
+    end = {'none': [], 'plain': [b'extra file\n'], 'nonl': [b'extra'], 'trace': [b'+ more\n']}[tail]
+    return 'log trace bytes=%d then %s' % (T, tail), enc(*(body + end))
+
+
+def rlog_line(L):
+    return 'regress log line length=%d' % L, enc(b'==== t1 ====\n', (b'r', L), b'\nFAILED\n==== t2 ====\nok\n')
+
+
+def rlog_blocks(N):
+    return 'regress log tests=%d' % N, enc((b'==== t ====\ncc -o t t.c\nFAILED\n==== u ====\nok\n==== s ====\nSKIPPED\n', N // 3),
+                                          (b'==== t ====\nFAILED\n', N % 3))
+
+
+def rlog_block_size(S):
+    return 'regress log test block bytes=%d' % S, enc(b'==== t0 ====\nok\n==== t1 ====\n', *(filler(S - 20) + [b'FAILED\n', b'==== t2 ====\nok\n']))
+
+
+def file_content(L, shape):
+    """comment / tags / target / cvs log / packages.diff of L bytes: one line with or without its newline, or L bytes then newlines"""
+    if shape == 'nl':
+        return enc((b'c', max(0, L - 1)), b'\n' if L else b'')
+    if shape == 'nonl':
+        return enc((b'c', L))
+    if shape == 'lines':
+        return enc(*filler(L))
+    return enc((b'c', 3), (b'\n', L))      # 'newlines': three bytes and L newlines (buffer_trim_lines pops them one by one)
+
+
+def long_logname(L):
+    """a log name of L bytes: components of at most 255 bytes (the letter differs per length: the names of one case do not collide)"""
+    comps, rest, ch = [], L, 'abcdefghijklmnop'[LOGNAME_LENS.index(L)] if L in LOGNAME_LENS else 'z'
+    while rest > 0:
+        k = min(255, rest)
+        if rest - k == 1:
+            k -= 1
+        comps.append(ch * k)
+        rest -= k + 1
+    return '/'.join(comps)
+
+
+# ---- the families: name -> (function(rng | None, deterministic index) -> case, properties it is aimed at)
+
+def _pick(rng, seq, k):
+    """k of seq: random, or (rng None) all of them"""
+    return list(seq) if rng is None else rng.sample(list(seq), min(k, len(seq)))
+
+
+def fam_log_line_length(rng, mode=None, pos=None):
+    pos = pos or rng.choice(['last', 'tenth', 'eleventh', 'nonl'])
+    mode = mode or rng.choice(['robsd-regress', 'canvas', 'robsd', 'robsd-ports'])
+    items = [log_line_length(L, pos) for L in _pick(rng, LENS, 2)]
+    return sections_case(mode, [(n, 1, c, None) for n, c in items], [n for n, c in items])
+
+
+def fam_log_lines(rng, mode=None, shape=None):
+    shape = shape or rng.choice(['plain', 'crlf', 'blanks', 'nonl'])
+    mode = mode or rng.choice(['robsd-regress', 'canvas', 'robsd-cross'])
+    items = [log_lines(N, shape) for N in _pick(rng, [0, 1, 9, 10, 11, 15, 16, 17, 255, 256], 3)]
+    return sections_case(mode, [(n, 2, c, None) for n, c in items], [n for n, c in items])
+
+
+def regress_cap(mode, params, cap):
+    """robsd-regress reads every log through the regress parser first, whose model is quadratic in the number of lines
+    before a marker (1024 lines: 4.5 s, 4096: over a minute): there the parameters stop at cap; the other modes take all"""
+    return [p for p in params if p <= cap] if mode == 'robsd-regress' else list(params)
+
+
+def fam_log_size(rng, mode=None, nl=None):
+    nl = rng.random() < 0.5 if nl is None else nl
+    mode = mode or rng.choice(['robsd-regress', 'canvas', 'robsd', 'robsd-cross'])
+    items = [log_size(S, nl) for S in _pick(rng, regress_cap(mode, BLOCKS, 8193), 2)]
+    return sections_case(mode, [(n, 1, c, None) for n, c in items], [n for n, c in items])
+
+
+def fam_log_excerpt(rng, mode=None):
+    mode = mode or rng.choice(['robsd-regress', 'robsd', 'robsd-cross', 'robsd-ports'])
+    items = [log_excerpt_offset(B, n) for B in _pick(rng, regress_cap(mode, BLOCKS, 8193), 2) for n in _pick(rng, [10, 11, 1], 1)]
+    items += [log_excerpt_size(E) for E in _pick(rng, BLOCKS, 1)]
+    return sections_case(mode, [(n, 1, c, None) for n, c in items], [n for n, c in items])
+
+
+def fam_log_shapes(rng, mode=None):
+    mode = mode or rng.choice(['robsd-regress', 'canvas', 'robsd', 'robsd-ports'])
+    items = [log_blank(K, only) for K in _pick(rng, regress_cap(mode, [1, 10, 11, 255, 4096, 65536], 255), 1) for only in _pick(rng, [False, True], 1)]
+    items += [log_escapes(K, b) for K in _pick(rng, [1, 4095, 4096, 16384], 1) for b in _pick(rng, [0, 13], 1)]      # 16384 NULs print as 64 KiB
+    items += [log_nul_at(B) for B in _pick(rng, [4095, 4096, 4097, 8192], 1)]
+    return sections_case(mode, [(n, 1, c, None) for n, c in items], [n for n, c in items])
+
+
+def fam_log_trace(rng, mode=None):
+    """checkflist rows with exit 0: is_log_empty decides whether they get a section"""
+    mode = mode or rng.choice(['robsd', 'robsd-cross', 'canvas'])
+    items = [log_trace(T, tail) for T in _pick(rng, [4095, 4096, 4097, 8192, 65536], 2) for tail in _pick(rng, ['none', 'plain', 'nonl', 'trace'], 2)
+             if T < 65536 or tail in ('plain', 'none')]
+    rows = [brow(i + 1, 'checkflist') for i in range(len(items))]
+    return plain_case(mode, rows, {r['log']: c for r, (n, c) in zip(rows, items)}, classes=[n for n, c in items])
+
+
+def fam_regress_log(rng):
+    items = [rlog_line(L) for L in _pick(rng, LENS, 2)] + [rlog_blocks(N) for N in _pick(rng, COUNTS, 1)]
+    items += [rlog_block_size(S) for S in _pick(rng, [4095, 4096, 4097, 8192, 16384], 1)]
+    return sections_case('robsd-regress', [(n, k % 2, c, None) for k, (n, c) in enumerate(items)], [n for n, c in items])
+
+
+def fam_files(rng, i=None, mode=None):
+    """comment, tags, target and the collected cvs logs / packages.diff at the boundary lengths"""
+    i = rng.randrange(len(LENS)) if i is None else i
+    mode = mode or ['robsd', 'robsd-cross', 'robsd-ports', 'robsd-regress'][i % 4]
+    shapes = ['nl', 'nonl', 'lines', 'newlines']
+    Lc, Lt, Lf = LENS[i], LENS[(i + 4) % len(LENS)], LENS[(i + 8) % len(LENS)]
+    sc, sf = shapes[i % 4], shapes[(i // 4 + 1) % 4]
+    c = plain_case(mode, [brow(1, 'env'), brow(2, 'cvs', ex=1 if mode == 'robsd-regress' else 0)], {'001.log': b'+ env\n'.hex(), '002.log': b'cvs up\n'.hex()})
+    c['comment'] = file_content(Lc, sc)
+    c['tags'] = file_content(Lt, 'nonl' if i % 2 else 'nl')
+    cls = ['comment length=%d %s' % (Lc, sc), 'tags length=%d %s' % (Lt, 'nonl' if i % 2 else 'nl')]
+    if mode == 'robsd-cross':
+        c['target'] = file_content(Lf, 'nl' if sf != 'nonl' else 'nonl')
+        cls.append('target first line length=%d' % max(0, Lf - (sf != 'nonl')))
+    else:
+        names = {'robsd': CVS_TMP[:4], 'robsd-ports': CVS_TMP[4:6], 'robsd-regress': CVS_TMP[:2]}[mode]
+        for k, nm in enumerate(names):
+            c['tmp'][nm] = file_content(LENS[(i + 8 + 5 * k) % len(LENS)], shapes[(i + k) % 4])
+            cls.append('cvs log length=%d %s' % (LENS[(i + 8 + 5 * k) % len(LENS)], shapes[(i + k) % 4]))
+        if mode == 'robsd-ports':
+            c['rows'].append(brow(3, 'dpb', log='003.log'))
+            c['logs']['003.log'] = b'dpb\n'.hex()
+            c['tmp']['packages.diff'] = file_content(Lf, sf)
+            cls.append('packages.diff length=%d %s' % (Lf, sf))
+    c['classes'] = cls
+    return c
+
+
+def fam_name_length(rng, mode=None, lens=None):
+    """the failing row's name: Subject and Status line in the sequential modes, the section header everywhere, the name of the
+    regress-<name>-quiet variable and the key of the suite map in robsd-regress"""
+    mode = mode or rng.choice(MODES)
+    if lens is None:
+        lens = [rng.choices(NAME_LENS, [4, 4, 4, 4, 3, 3, 3, 2, 2, 2, 0.5, 0.5, 0.5])[0]]
+    rows, logs = [brow(1, 'env')], {'001.log': b'+ env\n'.hex()}
+    for L in lens:
+        i = len(rows) + 1
+        nm = ('n' * L) if mode != 'robsd-regress' else ('s/' + 'n' * L)[:L] if L > 2 else 'n' * L
+        rows.append(brow(i, nm, ex=3))
+        logs['%03d.log' % i] = ten(b'line', 12).hex()
+    c = plain_case(mode, rows, logs, classes=['step name length=%d' % L for L in lens])
+    if mode == 'robsd-regress':
+        c['regress'] = [[r['name'], False] for r in rows[1:]] + [[rows[-1]['name'] + 'x', True], [rows[-1]['name'][:-1] or 'y', True]]
+    return c
+
+
+def fam_logname_length(rng, mode=None):
+    mode = mode or rng.choice(['robsd-regress', 'canvas', 'robsd', 'robsd-ports'])
+    lens = _pick(rng, LOGNAME_LENS, 2)
+    return sections_case(mode, [('', 1, ten(b'line', 12).hex() if L % 2 else b'==== t ====\nFAILED\n'.hex(), long_logname(L)) for L in lens],
+                         ['log name length=%d' % L for L in lens])
+
+
+def fam_near_names(rng, mode=None, pool=None, shell='always'):
+    """passing rows whose names are one comparison away from cvs / dpb / checkflist / end / a suite (or, pool = SHELL_NAMES, hold a
+    blank or shell syntax), then a failing row with such a name; every row carries a duration and a delta"""
+    mode = mode or rng.choice(MODES)
+    pool = pool or NEAR_NAMES
+    names = _pick(rng, pool, 6)
+    rows, logs = [], {}
+    for k, nm in enumerate(names):
+        r = brow(k + 1, nm, dur=100 + k, delta=61 + k, log='the log %d.log' % k if pool is SHELL_NAMES and k % 4 == 0 else None)
+        rows.append(r)
+        logs[r['log']] = [b'plain line\n', b'+ trace only\n', b'==== t ====\nSKIPPED\n'][k % 3].hex()
+    last = names[-1] if rng is None else rng.choice(names)
+    rows.append(brow(len(rows) + 1, last, ex=1))
+    logs[rows[-1]['log']] = ten(b'line', 3).hex()
+    c = plain_case(mode, rows, logs, classes=['step name near a looked-up name' if pool is NEAR_NAMES else 'step name with a blank or shell syntax'],
+                   shell=shell)
+    c['tmp']['packages.diff'] = b'+pkg-1.0\n'.hex()
+    if rng is not None and rng.random() < 0.5:
+        rows.append(brow(len(rows) + 1, 'end', dur=4000, delta=-61, log=''))
+    c['regress'] = [['bin/ksh', True], ['bin/ksh-extra', False], ['bin', False]]
+    return c
+
+
+def fam_shell_names(rng, mode=None, shell=None):
+    # the shell total on these names is the parked finding (PENDING_FINDINGS): robsd-report is checked on them, duration_total only when switched on
+    return fam_near_names(rng, mode, SHELL_NAMES, shell='always' if (shell or PENDING_FINDINGS) else False)
+
+
+def fam_comma_name(rng, mode=None):
+    """a name with a comma: the row has ten fields, the step file does not parse (robsd-step -W refuses such a name since bda6bfa;
+    a file written before that, or by hand): no report, exit 1"""
+    mode = mode or rng.choice(MODES)
+    rows = [brow(1, 'env'), brow(2, 'a,b', ex=1), brow(3, 'end', log='')]
+    return plain_case(mode, rows, {'001.log': b'+ env\n'.hex(), '002.log': b'x\n'.hex()}, classes=['step name with a comma'])
+
+
+def fam_row_counts(rng, mode=None, kind=None, N=None, compact=False):
+    """N rows: all passing but the last / N failing rows / N skipped rows in the middle / N skipped rows after the failing one"""
+    mode = mode or rng.choice(MODES)
+    kind = kind or rng.choice(['rows', 'failing rows', 'skipped rows', 'trailing skipped rows'])
+    N = rng.choice(COUNTS) if N is None else N
+    seq = mode in SEQ_MODES
+    t0 = 1700000000
+
+    def pat(ex, skip, n):
+        return {'step': 0, 'name': 'suite/%d' if mode == 'robsd-regress' else 'w%d', 'exit': ex, 'duration': 3, 'delta': 1,
+                'log': 'l%d.log', 'user': 'root', 'time': t0, 'skip': skip, 'repeat': n}
+    fail = brow(0, SEQ_WORK[mode][0] if seq else 'the failing one', ex=2, log='fail.log', t=t0 + 500)
+    if kind == 'rows':
+        rows = [pat(0, 0, max(0, N - 1))] + ([fail] if N else [])
+    elif kind == 'failing rows':
+        rows = [pat(0, 0, 2), pat(1, 0, N)] + ([pat(0, 1, 1)] if seq else [])
+    elif kind == 'skipped rows':
+        rows = [pat(0, 0, 1), pat(0, 1, N), fail]
+    else:
+        rows = [pat(0, 0, 2), fail, pat(0, 1, N)]
+    c = plain_case(mode, [r for r in rows if r.get('repeat', 1) > 0], {'l%d.log': ten(b'line', 11).hex(), 'fail.log': ten(b'failed', 12).hex()},
+                   classes=['%s=%d' % (kind, N)], shell='always')
+    if mode == 'robsd-regress':
+        c['regress'] = [['suite/%d' % i, i % 5 == 0] for i in range(1, N + 4)]
+        c['classes'].append('regress suites=%d' % (N + 3))
+    return c if compact else expand_case(c)
+
+
+# ---- numbers (C18)
+
+def fam_step_durations(rng, mode=None, alone=None):
+    """Duration: lines of sections: durations and deltas at the int / 32 bit / 64 bit boundaries (threshold 0 for a step)"""
+    mode = mode or rng.choice(['canvas', 'robsd-regress'])
+    durs = _pick(rng, BDURS, 3) if alone is None else alone
+    if I63 - 1 in durs and len(durs) > 1:
+        # the rows are added up (steps_total_duration, duration_total): 2^63-1 stands alone, the sum stays inside int64_t
+        durs = [0, I63 - 1, 0] if rng is not None else [d for d in durs if d != I63 - 1]
+    cls = []
+    rows, logs = [], {}
+    for k, d in enumerate(durs):
+        dl = BDELTAS[(k * 5 + 3) % len(BDELTAS)] * (-1 if k % 2 else 1) if rng is None else rng.choice(BDELTAS) * rng.choice([1, -1])
+        r = brow(k + 1, 'suite/%d' % (k + 1) if mode == 'robsd-regress' else 'step %d' % (k + 1), ex=1, dur=d, delta=dl)
+        rows.append(r)
+        logs[r['log']] = b'x\n'.hex()
+        cls += ['step duration=%s' % pw(d), 'step delta=%s' % pw(dl)]
+    c = plain_case(mode, rows, logs, classes=cls, shell='always')
+    c['regress'] = [[r['name'], False] for r in rows]
+    return c
+
+
+def pw(v):
+    """a number as the class lists name it: 2^31-1, -2^32-61, 60"""
+    a = abs(v)
+    for e in (63, 32, 31):
+        if abs(a - 2 ** e) <= 61 and a >= 2 ** 31 - 61:
+            d = a - 2 ** e
+            return ('-' if v < 0 else '') + '2^%d%s' % (e, '' if d == 0 else '%+d' % d)
+    return str(v)
+
+
+def fam_end_row(rng, mode=None, dur=None, delta=None):
+    """the end row's duration and delta (the stats Duration: line, threshold 60 s)"""
+    mode = mode or rng.choice(MODES)
+    dur = rng.choice(BDURS_END) if dur is None else dur
+    delta = rng.choice(BDELTAS) * rng.choice([1, -1]) if delta is None else delta
+    w = 'suite/1' if mode == 'robsd-regress' else 'first' if mode == 'canvas' else SEQ_WORK[mode][0]
+    rows = [brow(1, 'env', dur=2), brow(2, w, ex=1, dur=61, delta=-60), brow(3, 'end', dur=dur, delta=delta, log='')]
+    c = plain_case(mode, rows, {'001.log': b'+ env\n'.hex(), '002.log': b'x\n'.hex()}, classes=['end duration=%s' % pw(dur), 'end delta=%s' % pw(delta)],
+                   shell='always')
+    c['regress'] = [['suite/1', False]]
+    return c
+
+
+def fam_duration_sum(rng, mode=None, T=None, n=None):
+    """no end row: the total is the sum of the rows (steps_total_duration, duration_total) and reaches T with the last row;
+    robsd-regress: the difference of the first and last time"""
+    mode = mode or rng.choice(MODES)
+    T = rng.choice([59, 60, 61, 3600, I31 - 1, I31, I32 - 1, I32, I63 - 1]) if T is None else T
+    n = rng.choice([2, 3, 16, 17]) if n is None else n
+    if mode == 'robsd-regress':
+        t0 = rng.choice([0, 1, I31 - 1, I31, 1700000000]) if rng is not None else I31 - 1
+        if t0 + T > I63 - 1:
+            t0 = 0
+        rows = [brow(1, 'suite/1', ex=1, t=t0)] + [brow(i, 'suite/%d' % i, t=t0 + 1) for i in range(2, n)] + [brow(n, 'suite/%d' % n, t=t0 + T)]
+        cls = ['regress wall time=%s from %s' % (pw(T), pw(t0))]
+    else:
+        first = T // 2
+        mid = [1] * (n - 2)
+        rows = [brow(1, 'one', ex=0, dur=first)] + [brow(i + 2, 'w%d' % i, dur=1) for i in range(n - 2)]
+        rows.append(brow(n, SEQ_WORK.get(mode, ['last'])[0], ex=1, dur=T - first - len(mid)))
+        cls = ['duration sum=%s over %d rows' % (pw(T), n)]
+    c = plain_case(mode, rows, {r['log']: b'x\n'.hex() for r in rows}, classes=cls, shell='always')
+    c['regress'] = [['suite/%d' % i, False] for i in range(1, n + 1)]
+    return c
+
+
+SIZE_PAIRS = [(0, MIB), (MIB, 0), (1, 1), (MIB - 1, 0), (MIB + 1, 0), (1023, 2 * MIB), (1024, 2 * MIB), (1025, 2 * MIB), (1023 * KIB, 0),
+              (1024 * KIB - 1, 0), (1024 * KIB, 0), (1025 * KIB, 0), (I31 - 1, 0), (I31, 0), (I31, 1), (I32 - 1, MIB), (I32, 0), (0, I32),
+              (I32 + MIB - 1, MIB - 1), (I32 + MIB - 1, 0), (I32 + MIB, I32), (I32, I31), (I31 - 1, I32), (2 ** 30 - 1, 1), (2 ** 30, 1),
+              (2 ** 40, 2 ** 40 + I32), (2 ** 43, 0), (2 ** 43, 2 ** 43 - MIB), (2 ** 43 - MIB + 1, 2 ** 43)]
+
+
+def fam_sizes(rng):
+    """release files whose size or whose difference to the previous invocation sits at a 32 bit boundary, at the K / M
+    unit boundaries, at the thresholds; (cur, prev) per file, bsd.rd with the KiB threshold"""
+    pairs = _pick(rng, SIZE_PAIRS, 5)
+    cur = [['f%02d' % i, a] for i, (a, b) in enumerate(pairs)]
+    prev = [['f%02d' % i, b] for i, (a, b) in enumerate(pairs)]
+    rd = [(KIB, 0), (KIB - 1, 0), (I32, I32 + KIB), (I32 + KIB - 1, 0), (2 * KIB, 3 * KIB - 1)]
+    a, b = rd[0] if rng is None else rng.choice(rd)
+    cur.append(['bsd.rd', a])
+    prev.append(['bsd.rd', b])
+    # present in one invocation only (an empty file is not an absent file: (0, 2^20) above)
+    cur.append(['only-now.tgz', 5 * MIB])
+    prev.append(['only-before.tgz', 5 * MIB])
+    c = plain_case('robsd', [brow(1, 'env')], {'001.log': b'+ env\n'.hex()}, rel=cur, others=[['2024-01-04.1', 'dir']],
+                   created=['2024-01-04.1', '2024-01-05.1'], prevrel={'2024-01-04.1': prev})
+    c['classes'] = ['size %s previous %s' % (pw(a), pw(b)) for a, b in pairs] + ['ramdisk size %s previous %s' % (pw(a), pw(b)), 'release file on one side only']
+    return c
+
+
+def fam_rel_count(rng, N=None):
+    """N release files that all changed (the vector of Size: lines and the directory listing grow); a 255 byte name among them"""
+    N = rng.choice([0, 1, 16, 17, 64, 65]) if N is None else N
+    cur = [['set%03d.tgz' % i, 3 * MIB + i] for i in range(N)]
+    prev = [['set%03d.tgz' % i, MIB + 2 * i] for i in range(N)]
+    if N:
+        cur[-1][0] = prev[-1][0] = 'z' * 255
+    c = plain_case('robsd', [brow(1, 'env')], {'001.log': b'+ env\n'.hex()}, rel=cur, others=[['2024-01-04.1', 'dir']],
+                   created=['2024-01-04.1', '2024-01-05.1'], prevrel={'2024-01-04.1': prev})
+    c['classes'] = ['release files=%d' % N]
+    return c
+
+
+def fam_invocations(rng, n=None, kind=None):
+    """the n-th invocation of a day with all earlier ones kept (names <date>.<k> unpadded: prefixes of one another from the tenth on),
+    or a robsddir with many entries of other days"""
+    kind = kind or rng.choice(['same day', 'same day', 'other days', 'prefix'])
+    day = '2024-01-05'
+    if kind == 'same day':
+        n = rng.choice([1, 2, 9, 10, 11, 99, 100, 101]) if n is None else n
+        names = ['%s.%d' % (day, k) for k in range(1, n)]
+        me = '%s.%d' % (day, n)
+        cls = 'invocation of the day=%d' % n
+    elif kind == 'other days':
+        n = rng.choice([15, 16, 17, 31, 32, 33, 63, 64, 65, 255, 256]) if n is None else n
+        names = ['20%02d-%02d-%02d.1' % (10 + k // 336, k // 28 % 12 + 1, k % 28 + 1) for k in range(n - 1)]
+        me = day + '.1'
+        cls = 'entries of robsddir=%d' % n
+    else:
+        # the only other invocation has a name that is a prefix of this one's, or this one's name is a prefix of it
+        n = rng.choice([10, 100, 1]) if n is None else n
+        names, me = ([day + '.1'], day + '.%d' % n) if n > 1 else ([day + '.10'], day + '.1')
+        cls = 'previous invocation name %s' % ('is a prefix of this one' if n > 1 else 'has this one as a prefix')
+    created = names + [me] if not (kind == 'prefix' and n == 1) else [me] + names
+    cur = [['bsd', 40 * MIB], ['bsd.rd', 9 * KIB]]
+    prevrel = {nm: [['bsd', (k % 30 + 1) * MIB], ['bsd.rd', (k % 7 + 1) * KIB]] for k, nm in enumerate(names)}
+    c = plain_case('robsd', [brow(1, 'env')], {'001.log': b'+ env\n'.hex()}, builddir=me, rel=cur, others=[[nm, 'dir'] for nm in names],
+                   created=created, prevrel=prevrel)
+    c['classes'] = [cls]
+    return c
+
+
+FAMILIES_C05 = [fam_log_line_length, fam_log_lines, fam_log_size, fam_log_excerpt, fam_log_shapes, fam_log_trace, fam_regress_log, fam_files,
+                fam_name_length, fam_logname_length, fam_near_names, fam_shell_names, fam_comma_name, fam_row_counts]
+FAMILIES_C18 = [fam_step_durations, fam_end_row, fam_duration_sum, fam_sizes, fam_rel_count, fam_invocations, fam_near_names, fam_shell_names, fam_row_counts]
+
+
+def boundary_case(rng, families=None):
+    return (rng.choice(families or FAMILIES_C05 + FAMILIES_C18))(rng)
+
+
+def boundary_corpus():
+    """the deterministic cases stored under corpus/ (tools: python3 -c 'import rp_common; rp_common.write_boundary_corpus()'):
+    {pid: [(file name, comment, [cases])]}; every parameter of every family at least once"""
+    c5, c18 = [], []
+
+    def add(lst, name, note, cases):
+        lst.append(('b%s_%s.json' % ('05' if lst is c5 else '18', name), note, cases if isinstance(cases, list) else [cases]))
+    add(c5, 'log_line_length', 'a log line of every boundary length as the last / tenth-from-last / eleventh-from-last / unterminated last line',
+        [fam_log_line_length(None, mode, pos) for pos, mode in (('last', 'canvas'), ('tenth', 'robsd-cross'), ('eleventh', 'robsd'), ('nonl', 'robsd-ports'))])
+    add(c5, 'log_lines', 'logs of 0,1,9,10,11,15..17,255,256 lines: plain, no final newline, blank lines between, CRLF',
+        [fam_log_lines(None, mode, shape) for shape, mode in (('plain', 'robsd-regress'), ('nonl', 'canvas'), ('blanks', 'robsd-cross'), ('crlf', 'robsd-regress'))])
+    add(c5, 'log_size', 'logs of exactly 4095..65536 bytes with and without final newline',
+        [fam_log_size(None, 'robsd-cross', True), fam_log_size(None, 'robsd', False), fam_log_size(None, 'canvas', False), fam_log_size(None, 'robsd-regress', True)])
+    add(c5, 'log_excerpt', 'the tenth / eleventh / only line from the end starts at a block boundary; ten lines of 4095..65536 bytes together',
+        [fam_log_excerpt(None, 'robsd'), fam_log_excerpt(None, 'robsd-regress')])
+    add(c5, 'log_shapes', 'only newlines, many trailing newlines, runs of NUL and CR bytes, a NUL at a block boundary',
+        [fam_log_shapes(None, 'robsd'), fam_log_shapes(None, 'canvas'), fam_log_shapes(None, 'robsd-regress')])
+    add(c5, 'log_trace', 'checkflist logs of 4095..65536 bytes of trace lines, then nothing / a plain line / an unterminated one / a trace line',
+        [fam_log_trace(None, 'robsd'), fam_log_trace(None, 'canvas')])
+    add(c5, 'regress_log', 'regress logs: lines of every boundary length inside a failed test, 0..256 tests, test blocks of 4095..16384 bytes', fam_regress_log(None))
+    add(c5, 'files', 'comment, tags, target, cvs logs and packages.diff at every boundary length, four shapes', [fam_files(None, i) for i in range(len(LENS))])
+    add(c5, 'name_length', 'failing rows with names of 1..4097 bytes: section header, Subject and Status (sequential modes), regress-<name>-quiet and the suite map',
+        # (8191..8193 cost the model 3 s each: generated with a small weight, not stored)
+        [fam_name_length(None, 'canvas', NAME_LENS[:7]), fam_name_length(None, 'robsd-regress', NAME_LENS[1:7]), fam_name_length(None, 'robsd', NAME_LENS[7:10])])
+    add(c5, 'logname_length', 'log names of 1..3900 bytes (components of at most 255)', [fam_logname_length(None, 'robsd-regress')])
+    add(c5, 'near_names', 'names one comparison away from cvs / dpb / checkflist / end / a suite, in every mode', [fam_near_names(None, mode) for mode in MODES])
+    add(c5, 'shell_names', 'names and log names with a blank or with shell syntax, in every mode; a name with a comma',
+        [fam_shell_names(None, mode) for mode in MODES] + [fam_comma_name(None, 'canvas'), fam_comma_name(None, 'robsd')])
+    for kind, modes in (('rows', ['robsd', 'canvas']), ('failing rows', ['canvas', 'robsd-regress', 'robsd']), ('skipped rows', ['robsd-ports', 'canvas']),
+                        ('trailing skipped rows', ['robsd', 'robsd-cross', 'robsd-ports'])):
+        add(c5, kind.replace(' ', '_'), '%s = 0,1,15..17,31..33,63..65,255,256 (rows with "repeat" stand for that many rows)' % kind,
+            [fam_row_counts(None, modes[k % len(modes)], kind, N, compact=True) for k, N in enumerate(COUNTS)])
+    add(c18, 'step_durations', 'step durations and deltas at the int / 32 bit / 64 bit boundaries; a single row of 2^63-1 / of -2^63 seconds',
+        [fam_step_durations(None, 'canvas'), fam_step_durations(None, 'robsd-regress'), fam_step_durations(None, 'canvas', [0, I63 - 1]),
+         fam_step_durations(None, 'canvas', [0, -I63])])
+    ends = [(I31 - 1, I31), (I31, -I31), (I32 - 1, I32 + 60), (I32, -(I32 + 61)), (I63 - 1, I63 - 1), (86399, -(I63 - 1)), (3601, I31 + 1), (0, -(I32 - 1)),
+            (-1, I32), (86400, 60), (59, -61), (3599, I31 - 1), (60, -(I32 + 60)), (1, 3599), (3600, -3600), (61, 1), (I32, -59), (-2, 61), (-I31, -60),
+            (-I32, I31 - 1), (-(I63 - 1), 1), (-I63, -(I63 - 1))]
+    add(c18, 'end_row', 'the end row: durations and deltas at 59..61, 3599..3601, 86399/86400, 2^31, 2^32 (+60/+61), 2^63-1',
+        [fam_end_row(None, MODES[k % 5], d, dl) for k, (d, dl) in enumerate(ends)])
+    sums = [59, 60, 61, 3600, I31 - 1, I31, I32 - 1, I32, I63 - 1]
+    add(c18, 'duration_sum', 'no end row: the rows add up to 59..61, 3600, 2^31-1, 2^31, 2^32-1, 2^32, 2^63-1',
+        [fam_duration_sum(None, ['robsd', 'canvas', 'robsd-ports', 'robsd-cross'][k % 4], T, [2, 3, 16, 17][k % 4]) for k, T in enumerate(sums)])
+    add(c18, 'wall_time', 'robsd-regress: last time minus first time at the same values, times around 2^31',
+        [fam_duration_sum(None, 'robsd-regress', T, [2, 3, 16, 17][k % 4]) for k, T in enumerate(sums)])
+    add(c18, 'sizes', 'sizes and differences at the 32 bit, unit and threshold boundaries', fam_sizes(None))
+    add(c18, 'release_files', '0, 1, 16, 17, 64, 65 release files, all changed; a 255 byte name', [fam_rel_count(None, N) for N in (0, 1, 16, 17, 64, 65)])
+    add(c18, 'invocations_of_a_day', 'the 1st, 2nd, 9th..11th, 99th..101st invocation of a day, the earlier ones kept',
+        [fam_invocations(None, n, 'same day') for n in (1, 2, 9, 10, 11, 99, 100, 101)])
+    add(c18, 'robsddir_entries', '15..256 invocations of other days in robsddir', [fam_invocations(None, n, 'other days') for n in (15, 16, 17, 31, 32, 33, 63, 64, 65, 255, 256)])
+    add(c18, 'invocation_prefix', 'the only other invocation has a prefix-related name', [fam_invocations(None, n, 'prefix') for n in (10, 100, 1)])
+    add(c18, 'near_names', 'rows named End / endx / en ... carry durations; names near end', [fam_near_names(None, mode) for mode in ('robsd', 'canvas', 'robsd-regress')])
+    add(c18, 'shell_names', 'rows whose names hold a blank or shell syntax: duration_total evaluates them (findings/C18_step_eval_evaluates_fields.md); the smallest one first',
+        [plain_case('canvas', [brow(1, 'build', dur=100), brow(2, 'end ', dur=50)], {'001.log': b'x\n'.hex(), '002.log': b'y\n'.hex()},
+                    classes=['step name with a blank or shell syntax'], shell='always'), fam_shell_names(None, 'canvas', True), fam_shell_names(None, 'robsd', True)])
+    add(c18, 'rows', '16, 17, 64, 65, 256 rows (the total over many rows, the shell loop)',
+        [fam_row_counts(None, ['robsd', 'canvas', 'robsd-ports', 'robsd-cross', 'robsd'][k], 'rows', N, compact=True) for k, N in enumerate((16, 17, 64, 65, 256))])
+    return {'C05': c5, 'C18': c18}
+
+
+def write_boundary_corpus():
+    for pid, files in boundary_corpus().items():
+        for name, note, cases in files:
+            with open(os.path.join(common.VERIF, 'corpus', pid, name), 'w') as f:
+                j = {'_comment': 'boundary classes: ' + note, 'cases': cases}
+                if name == 'b18_shell_names.json':
+                    j['pending'] = SIG_EVAL       # skipped by load_corpus unless PENDING_FINDINGS
+                json.dump(j, f, separators=(',', ':'))
+                f.write('\n')
+
+
 # ---------------------------------------------------------------- fixture
 
 def step_csv(rows):
@@ -338,6 +970,29 @@ def write_conf(path, mode, root, aux, suites):
     open(path, 'w').write(body)
 
 
+def cbytes(c):
+    """the bytes of a content field of a case (a log, a file below tmp, comment, tags, target): a hex string, or the run-length
+    form {"rle": [[hex, n], ...]} = the concatenation of n copies of each chunk (keeps corpus, replay and evidence files of the
+    boundary classes small: a 64 KiB log is a few tokens)"""
+    if isinstance(c, dict):
+        return b''.join(bytes.fromhex(h) * n for h, n in c['rle'])
+    return bytes.fromhex(c)
+
+
+def enc(*parts):
+    """content field from parts (bytes, or (bytes, n) for n copies): hex when short, else run-length form; empty content is ''"""
+    ps = [(p, 1) if isinstance(p, bytes) else (p[0], p[1]) for p in parts]
+    ps = [(b, n) for b, n in ps if b and n > 0]
+    if sum(len(b) * n for b, n in ps) <= 400:
+        return b''.join(b * n for b, n in ps).hex()
+    out = []
+    for b, n in ps:
+        if len(b) > 64 and len(set(b)) == 1:
+            b, n = b[:1], len(b) * n          # a run of one byte
+        out.append([b.hex(), n])
+    return {'rle': out}
+
+
 def make_fixture(case, d):
     """materialises the case below d; returns the builddir path"""
     os.makedirs(d)
@@ -357,20 +1012,20 @@ def make_fixture(case, d):
         if c == 'U':
             os.makedirs(os.path.join(p, 'x'))
         else:
-            open(p, 'wb').write(bytes.fromhex(c))
+            open(p, 'wb').write(cbytes(c))
     for name, c in case['tmp'].items():
         if c == 'U':
             os.makedirs(os.path.join(bd, 'tmp', name, 'x'))
         elif c is not None:
-            open(os.path.join(bd, 'tmp', name), 'wb').write(bytes.fromhex(c))
+            open(os.path.join(bd, 'tmp', name), 'wb').write(cbytes(c))
     if case['comment'] == 'U':
         os.mkdir(os.path.join(bd, 'comment'))
     elif case['comment'] is not None:
-        open(os.path.join(bd, 'comment'), 'wb').write(bytes.fromhex(case['comment']))
+        open(os.path.join(bd, 'comment'), 'wb').write(cbytes(case['comment']))
     if case['tags'] is not None:
-        open(os.path.join(bd, 'tags'), 'wb').write(bytes.fromhex(case['tags']))
+        open(os.path.join(bd, 'tags'), 'wb').write(cbytes(case['tags']))
     if case['target'] is not None:
-        open(os.path.join(bd, 'target'), 'wb').write(bytes.fromhex(case['target']))
+        open(os.path.join(bd, 'target'), 'wb').write(cbytes(case['target']))
     if case['rel'] is not None:
         os.mkdir(os.path.join(bd, 'rel'))
         for nm, size in case['rel']:
@@ -612,6 +1267,7 @@ SIG_D18 = 'failed-step-but-no-report'
 SIG_D24 = 'failed-step-but-no-report-log-absent'
 SIG_D25 = 'regress-cvs-section-empty'
 SIG_AGE = 'previous-is-name-order-not-age'
+SIG_EVAL = 'shell-total-evaluates-step-fields'
 SRC_LOGS = ('cvs-src-up.log', 'cvs-src-ci.log')
 
 
@@ -667,6 +1323,11 @@ def different_length_suffixes(case):
         if m:
             by_day.setdefault(m.group(1), set()).add(len(m.group(2)))
     return any(len(v) > 1 for v in by_day.values())
+
+
+def shell_active_fields(case):
+    """a string field of a row holds a blank or shell syntax (step_eval hands the row to eval unquoted)"""
+    return any(SHELL_ACTIVE.search(r[f]) for r in case['rows'] for f in ('name', 'log', 'user'))
 
 
 def outside_reason(case, pid='C05'):
@@ -730,7 +1391,7 @@ def classify(pid, check, case, rep, rc, guard=True, byname=None, err=b''):
             return SIG_D25, ('robsd-regress: the section of the failed cvs step holds neither the collected cvs logs (tmp/cvs-src-up.log, '
                              'cvs-src-ci.log) nor the tail of its log: report_cvs_log has no ROBSD_REGRESS rows')
         if c not in (None, 'U'):
-            c = bytes.fromhex(c)
+            c = cbytes(c)
             raw = sec['body'][1:].replace(b'\\r', b'\r')
             nuls = [i for i, b in enumerate(c) if b == 0]
             cands = [raw] + ([raw[:-1]] if raw.endswith(b'\n') and not c.endswith(b'\n') else [])
@@ -768,6 +1429,9 @@ def classify(pid, check, case, rep, rc, guard=True, byname=None, err=b''):
         return 'report-exit-mismatch', 'robsd-report exit %d where the specification says %d' % (rc, 1 - rc)
     if name == 'sane':
         return 'nul-or-cr-in-report', 'a NUL or CR byte reached the report'
+    if name == 'shell' and shell_active_fields(case):
+        return SIG_EVAL, ('duration_total differs from the specified total on a step file with a blank or shell syntax in a string field: step_eval hands '
+                          'the row to eval unquoted (a row named "end " counts as the end step, "x;_tot=7" sets the total)')
     if name == 'sizes' and byname == '1' and not guard and different_length_suffixes(case):
         return SIG_AGE, ('the Size: lines compare with the greatest other NAME, which is not the invocation created last before this one '
                          '(names <date>.<n> are unpadded: .9 sorts after .10 and .11; or this invocation is not the newest)')
@@ -824,13 +1488,32 @@ def judge(pid, res, c, toks_answer, rc, out, err, rep, count_outside=True):
                                     'impl': impl_s[:600], 'stderr': err[-200:].decode('latin1')})
 
 
+def run_driver_parallel(drv, qs, workers=6, timeout=3000):
+    """the questions in input order, answered by several driver processes (each line is answered on its own; the big cases of
+    the boundary classes cost the list model up to a few seconds each)"""
+    if len(qs) < 4 * workers:
+        return common.run_driver(drv, qs, timeout=timeout)
+    # deal the questions out by size, largest first, so that the expensive ones do not queue behind one another
+    order = sorted(range(len(qs)), key=lambda i: -len(qs[i]))
+    lots = [order[k::workers] for k in range(workers)]
+    with ThreadPoolExecutor(workers) as ex:
+        outs = list(ex.map(lambda lot: common.run_driver(drv, [qs[i] for i in lot], timeout=timeout), lots))
+    ans = [None] * len(qs)
+    for lot, out in zip(lots, outs):
+        for i, a in zip(lot, out):
+            ans[i] = a
+    return ans
+
+
 def evaluate(ctx, pid, cases, res, impl, drv, with_shell=0.0):
     """runs the cases; fills res (disagreements, oracle failures of the checks that belong to pid)"""
     work = ctx.mkscratch('rpwork')
     obs = materialise(ctx, impl, cases, work)
     shell = [None] * len(cases)
     if with_shell > 0:
-        idx = [i for i in range(len(cases)) if cases[i].get('shell', True) and (with_shell >= 1 or (i * 2654435761 % 1000) / 1000.0 < with_shell)]
+        # the cases of the number classes carry shell = 'always': duration_total runs on every one of them
+        idx = [i for i in range(len(cases)) if cases[i].get('shell', True) and
+               (with_shell >= 1 or cases[i].get('shell') == 'always' or (i * 2654435761 % 1000) / 1000.0 < with_shell)]
         outs = run_shell_totals(impl, [(cases[i]['mode'], os.path.join(obs[i][0], 'r', cases[i]['builddir'], 'step.csv')) for i in idx])
         for i, o in zip(idx, outs):
             shell[i] = o
@@ -840,12 +1523,12 @@ def evaluate(ctx, pid, cases, res, impl, drv, with_shell=0.0):
         rep = parse_report(out) if rc == 0 else None
         reps.append(rep)
         tags = c.get('tags')
-        sizes_parsable = tags is None or bytes.fromhex(tags).endswith(b'\n')
+        sizes_parsable = tags is None or cbytes(tags).endswith(b'\n')
         qs.append('report ' + ' '.join(toks))
         qs.append(oracle_line(toks, rc, out, rep, sizes_parsable, None if sh in (None, '!') else sh))
         if sh is not None:
             qs.append('shtotal ' + ' '.join(toks))
-    ans = common.run_driver(drv, qs, timeout=3000)
+    ans = run_driver_parallel(drv, qs)
     j = 0
     for c, (d, toks, (rc, out, err)), sh, rep in zip(cases, obs, shell, reps):
         model, verdict = ans[j], ans[j + 1]
@@ -854,6 +1537,8 @@ def evaluate(ctx, pid, cases, res, impl, drv, with_shell=0.0):
         impl_s = '%d %s' % (rc if rc >= 0 else 999, hexs(out))
         res.count('mode=%s' % c['mode'])
         res.count('exit=%d' % rc)
+        for k in c.get('classes', []):
+            res.count('class: ' + k)
         if model != impl_s:
             res.disagreements.append({'case': c, 'what': 'robsd-report stdout/exit', 'model': model[:400], 'impl': impl_s[:400],
                                       'stderr': err[-200:].decode('latin1')})
@@ -862,7 +1547,13 @@ def evaluate(ctx, pid, cases, res, impl, drv, with_shell=0.0):
             j += 1
             res.count('shell_totals')
             if pid == 'C18' and msh != sh:
-                res.disagreements.append({'case': c, 'what': 'duration_total under bash', 'model': msh, 'impl': sh})
+                if shell_active_fields(c):
+                    # DurationDefs.sh_total_loop / sh_regress_total take the fields of a row as step_value returns them for inert text; what
+                    # eval makes of a blank or of shell syntax is not modelled.  The ORACLE judges these cases (spec_ok_shell, signature
+                    # shell-total-evaluates-step-fields, not gated) - the same observation is not reported a second time as a model difference
+                    res.count('shell model not compared (a field the shell evaluates; the oracle judges)')
+                else:
+                    res.disagreements.append({'case': c, 'what': 'duration_total under bash', 'model': msh, 'impl': sh})
         judge(pid, res, c, verdict, rc, out, err, rep)
         yield c, rc, out, rep, verdict
     shutil.rmtree(work, ignore_errors=True)
@@ -878,7 +1569,10 @@ def load_corpus(pid):
         if os.path.basename(p).startswith('e2e-'):
             continue       # scenarios of c05.py's end-to-end lane
         j = json.load(open(p))
-        cases.append(j.get('case', j))
+        if 'pending' in j and not PENDING_FINDINGS:
+            continue       # replays a finding that is reported but not yet in known_findings.json (see PENDING_FINDINGS)
+        # one case, or (the boundary classes: one file per family) a list of cases; rows with "repeat" are spelled out
+        cases += [expand_case(c) for c in (j['cases'] if 'cases' in j else [j.get('case', j)])]
     return cases
 
 
@@ -887,6 +1581,7 @@ def replay(ctx, pid, rep):
     if case is None:
         print(json.dumps(rep, indent=1)[:3000])
         return 1
+    case = expand_case(case)
     res = common.Result()
     impl = ctx.build_impl()
     drv = build_rp_driver(ctx)
